@@ -1269,6 +1269,29 @@ func (e *Engine) valueOf(st *State, x ast.Expr) *Fact {
 		return nil
 	case *ast.FuncLit:
 		return &Fact{Nil: 2}
+	case *ast.BinaryExpr:
+		// x + k / x - k with bounds known for x: the bounds shifted
+		if v.Op == token.ADD || v.Op == token.SUB {
+			if k, ok := constInt(e.Info, v.Y); ok {
+				if xk := e.canon(st, v.X); xk.OK {
+					if f := st.facts[xk.Key]; f != nil && (f.Lo != nil || f.Hi != nil) {
+						if v.Op == token.SUB {
+							k = -k
+						}
+						g := &Fact{}
+						if f.Lo != nil {
+							lo := *f.Lo + k
+							g.Lo = &lo
+						}
+						if f.Hi != nil {
+							hi := *f.Hi + k
+							g.Hi = &hi
+						}
+						return g
+					}
+				}
+			}
+		}
 	case *ast.CallExpr:
 		if IsBuiltinCall(e.Info, v, "new") || IsBuiltinCall(e.Info, v, "make") {
 			return &Fact{Nil: 2, Tags: []string{"fresh:new"}}
@@ -2072,6 +2095,17 @@ func (e *Engine) assumeCompare(st *State, x ast.Expr, op token.Token, y ast.Expr
 		op = negateOp(op)
 	}
 	cx, cy := constOf(e.Info, x), constOf(e.Info, y)
+	// a parameter of a helper interpreted in place that was passed a constant (accept('=')) is that constant
+	if cx == nil {
+		if rx := e.ResolveExpr(x); rx != x && constOf(e.Info, rx) != nil {
+			x, cx = rx, constOf(e.Info, rx)
+		}
+	}
+	if cy == nil {
+		if ry := e.ResolveExpr(y); ry != y && constOf(e.Info, ry) != nil {
+			y, cy = ry, constOf(e.Info, ry)
+		}
+	}
 	if cx != nil && cy != nil {
 		return st // whole-expression constants are handled by the caller
 	}
